@@ -362,3 +362,86 @@ def _long_pairs(case):
         info.classes.append("len_ge_32")
     info.nontrivial = True
     return info
+
+
+# ------------------------------------------------------------ wide batches, one reference shared by expansion, module reuse
+
+
+@st.composite
+def _wide_case(draw, tier):
+    A = draw(st.integers(1, 3))
+    R = draw(st.integers(1, 6))
+    H = draw(st.integers(1, 6))
+    eos_kind = draw(st.sampled_from(["none", "outside"]))
+    eos = None if eos_kind == "none" else A
+    N = draw(st.sampled_from([17, 33, 65, 70, 16, 32, 64] + ([129, 257] if tier == "thorough" else [])))
+    base = [draw(G.row(H, A, eos)) for _ in range(8)]
+    pick = draw(st.lists(st.integers(0, 7), min_size=N, max_size=N))
+    ref = draw(G.row(R, A, eos))
+    shared = draw(st.booleans())
+    refs = [ref] * N if shared else [draw(G.row(R, A, eos)) for _ in range(4)] * (N // 4 + 1)
+    return {
+        "b": {"N": N, "R": R, "H": H, "A": A, "eos": eos, "eos_kind": eos_kind, "refs": [list(r) for r in refs[:N]],
+              "hyps": [list(base[i]) for i in pick]},
+        "shared_ref_expanded": shared,
+        "costs": draw(G.dyadic_costs()), "include_eos": draw(st.booleans()), "norm": draw(st.booleans()),
+        "batch_first": draw(st.booleans()), "exclude_last": draw(st.booleans()), "padding": -1,
+        "entry": "module", "which": draw(st.sampled_from(["distance", "prefix"])),
+        "warmup": draw(st.booleans()),
+    }
+
+
+@subcheck("C01", "wide_batch", lambda tier: _wide_case(tier), 150, 3000,
+          doc="batches of 16..70 (thorough ..257) pairs, optionally one reference row shared by a stride-0 expanded view; the module "
+              "object is optionally called on unrelated data first (results must not depend on the object's history)",
+          required_classes=["shared_ref_expanded", "module_reused"])
+def _wide_batch(case):
+    import torch
+    import pydrobert.torch.modules as M
+
+    b = case["b"]
+    N, R, H = b["N"], b["R"], b["H"]
+    bf = case["batch_first"]
+    ref, hyp = G.to_tensors(b, bf)
+    if case["shared_ref_expanded"]:
+        row = torch.tensor(b["refs"][0], dtype=torch.long)
+        ref = row.unsqueeze(0).expand(N, R) if bf else row.unsqueeze(1).expand(R, N)
+    ins, dele, sub = case["costs"]
+    kw = dict(eos=b["eos"], include_eos=case["include_eos"], norm=case["norm"], batch_first=bf, ins_cost=ins, del_cost=dele,
+              sub_cost=sub, warn=False)
+    if case["which"] == "distance":
+        mod = M.EditDistance(**kw)
+    else:
+        mod = M.PrefixEditDistances(padding=case["padding"], exclude_last=case["exclude_last"], **kw)
+    cl = []
+    with warnings.catch_warnings():
+        warnings.simplefilter("ignore")
+        if case["warmup"]:
+            other = torch.zeros((3, 2) if bf else (2, 3), dtype=torch.long)
+            mod(other, other + 1)
+            cl.append("module_reused")
+        got = mod(ref, hyp)
+    rl, hl = G.lens_of(b, case["include_eos"])
+    if case["which"] == "prefix" and not bf:
+        got = got.t()
+    got = got.tolist()
+    for n in range(N):
+        r, h = b["refs"][n][: rl[n]], b["hyps"][n][: hl[n]]
+        D = O.wf_table(r, h, *case["costs"])
+        if case["which"] == "distance":
+            exp = _expected_distance(r, h, case["costs"], case["norm"])
+            require(_tol_eq(got[n], exp, True), "wide batch: edit distance of pair %d" % n, got[n], exp)
+        else:
+            nprefix = len(h) + (0 if case["exclude_last"] else 1)
+            for k in range(len(got[n])):
+                if k < nprefix:
+                    exp = D[len(r)][k]
+                    if case["norm"]:
+                        exp = (0.0 if k == 0 else 1.0) if len(r) == 0 else exp / len(r)
+                    require(_tol_eq(got[n][k], exp, True), "wide batch: prefix distance pair %d prefix %d" % (n, k), got[n][k], exp)
+                else:
+                    require(got[n][k] == float(case["padding"]), "wide batch: padding pair %d index %d" % (n, k), got[n][k], case["padding"])
+    if case["shared_ref_expanded"]:
+        cl.append("shared_ref_expanded")
+    cl.append("N_%d" % N)
+    return Info(nontrivial=True, classes=cl)
